@@ -118,12 +118,12 @@ func (r Resources) Match(pattern, input string) bool {
 	starIdx, matchIdx := -1, 0
 
 	for sIdx < len(input) {
-		if pIdx < len(pattern) && (pattern[pIdx] == '?' || pattern[pIdx] == input[sIdx]) {
-			sIdx++
-			pIdx++
-		} else if pIdx < len(pattern) && pattern[pIdx] == '*' {
+		if pIdx < len(pattern) && pattern[pIdx] == '*' {
 			starIdx = pIdx
 			matchIdx = sIdx
+			pIdx++
+		} else if pIdx < len(pattern) && (pattern[pIdx] == '?' || pattern[pIdx] == input[sIdx]) {
+			sIdx++
 			pIdx++
 		} else if starIdx != -1 {
 			pIdx = starIdx + 1
